@@ -2,13 +2,35 @@
 Tie: seeded random schedules of 2-4 real goroutines (encrypt / decrypt / open / close sessions against one factory with
 capacity-1/2 shared, per-session and system-key caches) under the cooperative controller; yield points are inserted by the
 overlay before every lock acquisition, reference-count update and condition wait of key_cache.go / pkg/cache."""
-import conccheck
+import conccheck, envcheck
 from vlib import Check
+
+
+def once_only_callbacks(ck, tier, seed, replay):
+    """The key caches release their reference on a key from the cache's eviction callback: a callback that runs twice for one entry
+    (or for an entry that is no longer cached) releases a reference that belongs to a user of the key.  The generic cache is driven
+    with op sequences over every policy and capacity threshold and each callback is matched against the entries present."""
+    runs = [["-replay", replay]] if replay else [["-seed", str(seed + 11), "-n", "700" if tier == "quick" else "8000"]]
+    cases = envcheck.run_harness(ck, "cache", runs)
+    if cases is None:
+        return False
+    ck.cov["eviction_callback_once_only_cases"] = len(cases)
+    bad = [c for c in cases if any("callback for key" in v or "unexpected callback" in v for v in c.get("viol") or [])]
+    ck.oblige(not bad, "the eviction callback runs at most once per cached entry on %d op sequences (all policies)" % len(cases), str(bad[:1])[:2000])
+    if bad:
+        what = [v for v in bad[0]["viol"] if "callback" in v][:3]
+        ck.violation(ck.replay_file("cachecb", {"what": what + ["the key cache's callback releases the cache's reference: a second run destroys a key its users still hold"],
+                                               "Case": bad[0]}))
+    return True
 
 
 def main(tier, seed, replay):
     ck = Check("C08", tier, seed)
     ck.coq_theorems()
+    if replay and "cachecb" in replay:
+        once_only_callbacks(ck, tier, seed, replay)
+        ck.cov.update({"evaluations": 1, "distinct_nontrivial": 1, "rule": "replay"})
+        return ck.finish()
     if replay and "sesscache" in replay:
         conccheck.run(ck, "sesscache", tier, seed, replay, only="destroyed")
         return ck.finish()
@@ -16,6 +38,7 @@ def main(tier, seed, replay):
     if cases is not None and not replay:
         # "... or close of another session": holders of a cached session while other holders close it / it is evicted
         conccheck.run(ck, "sesscache", tier, seed, None, n_quick=90, n_thorough=900, only="destroyed")
+        once_only_callbacks(ck, tier, seed, None)
     if cases is not None:
         s = ck.cov["schedules"]["keycache"]
         ck.cov.update({"evaluations": s["evaluations"], "distinct_nontrivial": s["distinct_schedules"],
